@@ -585,6 +585,7 @@ func checkC05(c *run.Ctx) {
 	c.Phase("randSS", func() { c05Random(c, kindSS, "randSS") })
 	c.Phase("largeSA", func() { c05Large(c, kindSA, "largeSA") })
 	c.Phase("largeSS", func() { c05Large(c, kindSS, "largeSS") })
+	c.Phase("nested-equal", func() { c05NestedEqual(c) })
 	c.Finish("exploration",
 		"phase 1: breadth-first enumeration of every operation (set, replace over all old/new pairs, delete, four in-callback rename patterns over keys a,b,c) from every slot layout (key or tombstone, incl. stale tombstone keys, per slot, read through the verif hook) reachable within the history-length bound, from three kinds of empty start map; phase 2: long random histories over alphabets of 4, 16 and 200 keys with delete-heavy phases; after every operation every observer is compared with a list-of-pairs model; phase 3: maps of 1022 to 9000 keys emptied in bulk in five patterns (compactions of large storage) and written to again. distinct_nontrivial counts distinct (ordered key list, slot layout) pairs with at least one live key that were observed",
 		map[string]any{"exhaustive": false},
